@@ -72,7 +72,9 @@ type c20Dim struct {
 // The security-relevant dimensions. Order is fixed (it is the materialisation order).
 var c20Dims = []c20Dim{
 	{"url", []string{"pub", "pub-port-path", "pub-upper-host", "http", "http-ip4", "ip4", "ip4-port", "ip6", "localhost", "tld-test", "tld-invalid", "example-com", "sub-example-org", "upper-reserved", "dot-localhost", "unset"}},
-	{"tls", []string{"full", "full-offload", "none"}},
+	{"tls", []string{"full", "none"}},             // node certificate + key + truststore present / absent
+	{"tlsoffload", []string{"unset", "incoming"}}, // tls.offload, combined with BOTH certificate present and absent
+	{"tlscertheader", []string{"unset", "set"}},   // tls.certheader
 	{"legacy", []string{"unset", "certfile", "certkeyfile", "truststorefile"}},
 	{"crypto", []string{"fs", "unset"}},
 	{"sql", []string{"sqlite", "unset"}},
@@ -214,7 +216,9 @@ var c20Rules = []c20Rule{
 		repair:   func(c c20Case) c20Case { return c.with("crypto", "fs") },
 		match:    c20Has("configure crypto", "explicit", "strict")},
 	{id: "tls-off", mode: c20StrictOnly,
-		doc:      "'requires TLS to be configured through tls.{certfile,certkeyfile,truststore}' (did:nuts/gRPC network only; tls.* 'Required in strict mode')",
+		doc: "'Private transactions can only be exchanged over authenticated nodes. Therefore is requires TLS to be configured through tls.{certfile,certkeyfile,truststore}'; " +
+			"tls.certfile / tls.certkeyfile: 'Required in strict mode' (did:nuts/gRPC network only). Independent of tls.offload / tls.certheader: offloading only concerns " +
+			"INCOMING gRPC connections ('Whether to enable TLS offloading for incoming gRPC connections'), the certificate is still the client certificate of outgoing ones",
 		violated: func(c c20Case) bool { return c.val("tls") == "none" && c.hasNuts() },
 		repair:   func(c c20Case) c20Case { return c.with("tls", "full") },
 		match:    c20Has("tls", "strict")},
@@ -228,6 +232,11 @@ var c20Rules = []c20Rule{
 		violated: func(c c20Case) bool { return c.val("url") == "ip6" },
 		repair:   func(c c20Case) c20Case { return c.with("url", "pub") },
 		match:    c20Has("does not represent a web did")},
+	{id: "offload-without-certheader", mode: c20MayRefuse,
+		doc:      "(not a strict-mode rule) tls.offload: 'If enabled tls.certheader must be configured as well' - refused in either mode, but only where offloading is actually set up (certificate present, did:nuts enabled)",
+		violated: func(c c20Case) bool { return c.val("tlsoffload") == "incoming" && c.val("tlscertheader") == "unset" },
+		repair:   func(c c20Case) c20Case { return c.with("tlscertheader", "set") },
+		match:    c20Has("tls.certheader must be configured")},
 	{id: "legacy-key", mode: c20Both,
 		doc:      "network.{certfile,certkeyfile,truststorefile} moved to tls.*: start-up stops in either mode",
 		violated: func(c c20Case) bool { return c.val("legacy") != "unset" },
@@ -323,15 +332,16 @@ func (c c20Case) concrete(p c20Paths) []c20KV {
 		}
 		add("url", "url", cu)
 	}
-	switch c.val("tls") {
-	case "full", "full-offload":
+	if c.val("tls") == "full" {
 		add("tls", "tls.certfile", p.cert)
 		add("tls", "tls.certkeyfile", p.cert)
 		add("tls", "tls.truststorefile", p.trust)
-		if c.val("tls") == "full-offload" {
-			add("tls", "tls.offload", "incoming")
-			add("tls", "tls.certheader", "X-Ssl-Client-Cert")
-		}
+	}
+	if c.val("tlsoffload") == "incoming" {
+		add("tlsoffload", "tls.offload", "incoming")
+	}
+	if c.val("tlscertheader") == "set" {
+		add("tlscertheader", "tls.certheader", "X-Ssl-Client-Cert")
 	}
 	if l := c.val("legacy"); l != "unset" {
 		ch := c.channel("legacy")
@@ -879,7 +889,11 @@ func c20Run(x *h.Ctx, c c20Case) {
 			}
 		}
 	}
-	if c.val("tls") == "full-offload" || strings.HasSuffix(c.val("secret"), ":env") || strings.HasSuffix(c.val("secret"), ":file") {
+	if c.val("tlsoffload") == "incoming" || c.val("tlscertheader") == "set" {
+		unrelated++
+		x.Classf("tls:%s:offload=%s:certheader=%s:nuts=%v", c.val("tls"), c.val("tlsoffload"), c.val("tlscertheader"), c.hasNuts())
+	}
+	if strings.HasSuffix(c.val("secret"), ":env") || strings.HasSuffix(c.val("secret"), ":file") {
 		unrelated++
 	}
 	for _, ch := range c.Ch {
@@ -982,6 +996,13 @@ func c20GenRandom(t *rapid.T) c20Case {
 	// the did:nuts TLS rule needs TLS off: make it frequent enough
 	if rapid.IntRange(0, 5).Draw(t, "tls-off") == 0 {
 		c.V["tls"] = "none"
+		// "TLS off" must be refused whatever the offloading options say
+		if rapid.Bool().Draw(t, "tls-off-offload") {
+			c.V["tlsoffload"] = "incoming"
+		}
+		if rapid.Bool().Draw(t, "tls-off-certheader") {
+			c.V["tlscertheader"] = "set"
+		}
 	}
 	chans := []string{"file", "file", "env", "flag"}
 	for _, d := range c20Dims {
@@ -1133,7 +1154,7 @@ func c20PairwiseRows() []c20Case {
 }
 
 // c20SingleRows: every value of every dimension as the only deviation from the secure baseline, once per channel
-// (the exhaustive "one rule at a time" sub-space; one unrelated option rides along), plus the didmethods x tls product.
+// (the exhaustive "one rule at a time" sub-space; one unrelated option rides along), plus the full didmethods x certificate x tls.offload x tls.certheader product.
 func c20SingleRows() []c20Case {
 	var out []c20Case
 	i := 0
@@ -1152,8 +1173,12 @@ func c20SingleRows() []c20Case {
 		}
 	}
 	for _, dm := range []string{"default", "web", "nuts", "nuts+web"} {
-		for _, tls := range []string{"none", "full", "full-offload"} {
-			out = append(out, c20Case{V: map[string]string{"didmethods": dm, "tls": tls}, StrictCh: "default", FlagEq: true})
+		for j, tls := range []string{"none:unset:unset", "none:incoming:unset", "none:incoming:set", "none:unset:set", "full:unset:unset", "full:incoming:unset", "full:incoming:set", "full:unset:set"} {
+			pp := strings.Split(tls, ":")
+			ch := []string{"file", "env", "flag"}
+			out = append(out, c20Case{V: map[string]string{"didmethods": dm, "tls": pp[0], "tlsoffload": pp[1], "tlscertheader": pp[2]},
+				Ch:       map[string]string{"tls": ch[j%3], "tlsoffload": ch[(j+1)%3], "tlscertheader": ch[(j+2)%3]},
+				StrictCh: []string{"default", "file", "env", "flag"}[j%4], FlagEq: j%2 == 0})
 		}
 	}
 	return out
